@@ -183,7 +183,7 @@ def _key_desc(kt: str):
     if kt.startswith("rsa"):
         bits = int(kt[3:])
         return st.integers(0, K.RSA_POOL[bits] - 1).map(lambda i: {"t": "rsa", "bits": bits, "i": i})
-    return K.ec_scalars(kt, 0.25).map(lambda d: {"t": "ec", "curve": kt, "d": d})
+    return K.ec_scalars(kt, 0.15).map(lambda d: {"t": "ec", "curve": kt, "d": d})
 
 
 _U32 = st.one_of(st.integers(0, 0xFFFFFFFF), st.sampled_from([0, 1, 0x3FF, 0xFFFF, 0x10000, 0x80000000, 0xFFFFFFFF]))
@@ -687,6 +687,6 @@ def calibrate(ctx) -> None:
 def parts(ctx):
     _STATE["work"] = ctx.work
     return [
-        HypPart("dc", lambda: _dc_strategy(ctx.tier), run_dc, {"quick": 1200, "thorough": 48000}),
-        HypPart("elev2", lambda: _elev2_strategy(ctx.tier), run_elev2, {"quick": 240, "thorough": 9600}),
+        HypPart("dc", lambda: _dc_strategy(ctx.tier), run_dc, {"quick": 800, "thorough": 40000}),
+        HypPart("elev2", lambda: _elev2_strategy(ctx.tier), run_elev2, {"quick": 200, "thorough": 8000}),
     ]
